@@ -493,6 +493,37 @@ pub fn run(rep: &mut Report, thorough: bool) {
     // (unspecified, broadcast, multicast, loopback, IPv4-mapped ...) under the extreme configurations
     // on the overflow-checked build, with and without address lists
     {
+        // two header fields of one accepted segment at once: every flag set that contains URG x
+        // every urgent pointer 0..80 and the edge values x payload lengths 0 / 1 / 5 / 18, behind a
+        // valid cookie (a pointer just beyond the segment, inside the header length, ...)
+        {
+            let t0 = std::time::Instant::now();
+            let flagsets: [u16; 6] = [F_PSH | F_ACK | F_URG, F_PSH | F_ACK | F_URG | F_FIN, F_SYN | F_URG, F_FIN | F_ACK | F_URG, F_ACK | F_URG, F_PSH | F_ACK];
+            let urgs: Vec<u16> = (0..=80u16).chain([255, 256, 1000, 4000, 0x8000, 0xffff]).collect();
+            let lens: [usize; 4] = [0, 1, 5, 18];
+            let dims = [flagsets.len() as u64, urgs.len() as u64, lens.len() as u64, 2];
+            let total = engine::product(&dims);
+            for c in [Cfg::base(), ext[0].clone().with_profile(Profile::Dev)] {
+                let stage = format!("segment-urgent-{}", if c.self_ips.is_empty() { "plain" } else { "lists-dev" });
+                let opts = RunOpts::new(&stage).stateful().chunk(256).no_monitor();
+                engine::run(
+                    &c,
+                    total,
+                    &opts,
+                    |i| {
+                        let d = engine::unrank(i, &dims);
+                        let f = flow(d[3] == 1, 40000, 80);
+                        let ck = cookies.get(&key_of(&f)).copied().unwrap_or(0).wrapping_add(1);
+                        let mut seg = TcpSeg::new(f.cport, f.sport, 1000, ck, flagsets[d[0] as usize], &b"GET / HTTP/1.1\r\n\r\n"[..lens[d[2] as usize]]);
+                        seg.urg = urgs[d[1] as usize];
+                        vec![Cmd::Frame(f.tcp_seg(&seg))]
+                    },
+                    |_it: &Item, _s: &mut Sink| {},
+                    &mut rep.sink,
+                );
+                rep.stage(&stage, "6 flag sets (5 with URG) x urgent pointer 0..80, 255, 256, 1000, 4000, 0x8000, 0xffff x payload length {0, 1, 5, 18} x {v4,v6} behind a valid cookie", total, t0);
+            }
+        }
         use crate::props::c02::{elicit, Kind};
         let macs: Vec<Mac> = vec![MAC_CLI, [0; 6], [0xff; 6], [0x01, 0, 0x5e, 1, 2, 3], [0x33, 0x33, 0, 0, 0, 1], crate::driver::MAC_SRV];
         let dmacs: Vec<Mac> = vec![crate::driver::MAC_SRV, [0xff; 6], [0x33, 0x33, 0, 0, 0, 1], [0x01, 0, 0x5e, 0, 0, 1]];
